@@ -8,6 +8,7 @@ package client
 import (
 	"errors"
 	"fmt"
+	quic "github.com/apernet/quic-go"
 	"net"
 	"net/http"
 	"strings"
@@ -30,21 +31,23 @@ type c16Sock struct {
 }
 
 type c16World struct {
-	e        *vsched.Exec
-	socks    []*c16Sock
-	cfgCalls int
-	cfgScript []string // per configFunc call: "ok" | "cfgerr"; beyond the script: ok
-	connected []int    // counts seen by connectedFunc
-	srvPC    *vnet.PacketConn
-	srvTr    *vquic.Transport
-	srvLn    *vquic.Listener
-	authMode []string // per accepted connection: "ok" | "reject"; beyond: ok
-	accepted int
-	events   []string
+	e               *vsched.Exec
+	socks           []*c16Sock
+	cfgCalls        int
+	cfgScript       []string // per configFunc call: "ok" | "cfgerr"; beyond the script: ok
+	connected       []int    // counts seen by connectedFunc
+	srvPC           *vnet.PacketConn
+	srvTr           *vquic.Transport
+	srvLn           *vquic.Listener
+	authMode        []string // per accepted connection: "ok" | "reject"; beyond: ok
+	accepted        int
+	events          []string
 	closeReturnedAt int // len(events) when Close returned (-1 = not yet)
 }
 
-func (w *c16World) ev(format string, a ...any) { w.events = append(w.events, fmt.Sprintf(format, a...)) }
+func (w *c16World) ev(format string, a ...any) {
+	w.events = append(w.events, fmt.Sprintf(format, a...))
+}
 
 // ConnFactory
 func (w *c16World) New(net.Addr) (net.PacketConn, error) {
@@ -128,7 +131,19 @@ func (w *c16World) killCurrent() bool {
 	conns := vquic.GetNet(w.e).Conns
 	for i := len(conns) - 1; i >= 0; i-- {
 		if !conns[i].IsClosed() {
-			conns[i].Kill()
+			// "reconnect on loss", whatever way quic-go reports the loss (cost-free choice; added
+			// after the independently seeded change C16-7: errors whose Temporary() is true - a
+			// stateless reset is one - were no longer classified as a closed connection)
+			switch k := w.e.Choose(4, vsched.KFree, "loss-kind"); k {
+			case 0:
+				conns[i].Kill() // idle timeout
+			case 1:
+				conns[i].KillWith(&quic.StatelessResetError{})
+			case 2:
+				conns[i].KillWith(&quic.TransportError{ErrorCode: 0x1, ErrorMessage: "internal error", Remote: true})
+			case 3:
+				conns[i].KillWith(&quic.ApplicationError{ErrorCode: 0x10c, ErrorMessage: "server shutting down", Remote: true})
+			}
 			w.ev("kill conn%d", i)
 			return true
 		}
@@ -162,11 +177,11 @@ func (w *c16World) newRC(lazy bool) (Client, error) {
 }
 
 type c16Res struct {
-	Kind   string // TCP | UDP
-	Err    error
-	Start  int
-	End    int
-	conn   net.Conn
+	Kind  string // TCP | UDP
+	Err   error
+	Start int
+	End   int
+	conn  net.Conn
 }
 
 func (w *c16World) call(rc Client, kind string) *c16Res {
@@ -211,7 +226,6 @@ func c16ErrClass(err error) string {
 	}
 	return "other:" + err.Error()
 }
-
 
 // finalChecks: quiescent-point clauses shared by all scenarios.
 func (w *c16World) finalChecks(rc Client, closed bool) {
